@@ -97,7 +97,7 @@ func (f *Adjoin) Call(s *slip.Scope, args slip.List, depth int) slip.Object {
 				// Already on list so return the original list.
 				return list
 			}
-		} else if testFunc.Call(s, slip.List{v, item}, d2) != nil {
+		} else if testFunc.Call(s, slip.List{item, v}, d2) != nil {
 			// Already on list so return the original list.
 			return list
 		}
